@@ -348,7 +348,7 @@ LEVEL_TEXT = ("Theorems in coq/theories/Properties/C11.v over the model of Build
               "the built bytes equal the D-Bus layout formula of C11/Spec.v, re-parse to the same header, signature and body bytes, "
               "the body offset is a multiple of 8, the declared body length and UNIX_FDS equal the actual ones; typed round trip for "
               "the body shapes s, u, (su), as. Tied to the code by differential runs through the public Builder API and Message::from_bytes.")
-LEVEL_NOTE = ("Trusted: Coq kernel; the hand-written model (absolute-position reading of zvariant's D-Bus (de)serializer for the header "
-              "types y u s o g v a(yv)); body values other than the listed shapes are opaque bytes + signature (general codec: C01-C03); "
+LEVEL_NOTE = ("Trusted: Coq kernel; the hand-written model (absolute-position reading of zvariant's D-Bus (de)serializer: header "
+              "types y u s o g v a(yv), and since fix 9e1c6e56 the dynamically typed decoder for header-field values of any type); body values other than the listed shapes are opaque bytes + signature (general codec: C01-C03); "
               "the body signature is preserved as the D-Bus list of complete types (a one-field structure and its field are the same "
               "body signature, as zbus defines it). Side observation: a body signature longer than 255 bytes makes the builder panic.")
